@@ -20,6 +20,22 @@ def copy_ctor(db, cls):
     raise AnalysisBroken("copy constructor of %s not found" % cls)
 
 
+def reach_c11(cfg, a, b):
+    """CFG position b is reachable from position a (block, index)"""
+    if a[0] == b[0] and a[1] < b[1]:
+        return True
+    seen, work = set(), list(cfg.succs(a[0]))
+    while work:
+        x = work.pop()
+        if x in seen:
+            continue
+        seen.add(x)
+        if x == b[0]:
+            return True
+        work.extend(cfg.succs(x))
+    return False
+
+
 def run(chk):
     db = DB("serial")
     db.load_all()
@@ -313,9 +329,85 @@ def run(chk):
                 if a == ["source->domain_transform_a", "source->domain_transform_b"]:
                     copied = True
         chk.ob("C11-D5.toplevel", cg.name, "member %s copied" % name, copied, "%s:%d" % (rec["file"], fld["l"]))
-    # default output range = all outputs
-    oe = [i for i in walk(cg.body) if i.get("k") == "IfStmt" and txt(strip(i["cond"])).replace(" ", "") == "outputs_end==-1"]
-    chk.ob("C11-D5.toplevel", cg.name, "outputs_end == -1 means all outputs of the source", bool(oe) and "source->getNumOutputs()" in txt(oe[0]["then"]) or (bool(oe) and any("source->getNumOutputs()" in txt(x) for x in walk(oe[0]["then"]))), cg.where)
+    # ------------------------------------------------------------------ D7 a copy onto itself
+    chk.rule("C11-D7.alias", "a method of TasmanianSparseGrid that receives another TasmanianSparseGrid by pointer or reference and reads it after it has started to change its own "
+                             "object (clear(), member writes) tests `source == this` first: copying a grid onto itself must not read a source that was just cleared")
+    from tsg.flow import is_reachable
+    from tsg.effects import Effects
+    eff7 = Effects(db)
+    nal = 0
+    for f in db.all_functions(["SparseGrids/TasmanianSparseGrid.cpp", "SparseGrids/TasmanianSparseGrid.hpp"]):
+        if f.cls != TSG or f.d.get("isctor") or f.d.get("const") or f.d.get("islambda"):
+            continue
+        srcs = [p_ for p_ in f.params() if "TasmanianSparseGrid" in p_.get("t", "") and "&&" not in p_.get("t", "")]
+        if not srcs:
+            continue
+        cfg = f.cfg
+        changes = [w for w, fld, kd in member_writes(f, into_lambda=False) if is_reachable(f, w)]
+        changes += [c for c, t in eff7.this_calls(f) if not t.d.get("const") and is_reachable(f, c) and eff7.closure(t)]
+        for p_ in srcs:
+            reads = [q for q in f.walk(into_lambda=False) if q.get("k") == "DeclRefExpr" and q.get("did") == p_["did"] and is_reachable(f, q)]
+            late = []
+            for w in changes:
+                bw = cfg.block_of(w)
+                for q in reads:
+                    if any(x is q for x in walk(w)):
+                        continue        # an argument of the changing call itself is read before the callee runs
+                    bq = cfg.block_of(q)
+                    if bw is not None and bq is not None and (bw[0] != bq[0] or bw[1] < bq[1]) and reach_c11(cfg, bw, bq):
+                        late.append((w, q))
+            if not late:
+                continue
+            nal += 1
+            chk.saw(f)
+            w0 = min((w for w, q in late), key=lambda n: (n.get("l", 0), n.get("id", 0)))
+            tested = False
+            for cnd, truth in cond_edges_dominating(f, w0):
+                c = strip(cnd)
+                if c is not None and c.get("k") == "BinaryOperator" and c.get("op") in ("==", "!="):
+                    sides = [strip(x) for x in c["c"]]
+                    has_this = any(any(z.get("k") == "CXXThisExpr" for z in [x] + list(walk(x))) for x in sides if x is not None)
+                    has_src = any(any(z.get("k") == "DeclRefExpr" and z.get("did") == p_["did"] for z in [x] + list(walk(x))) for x in sides if x is not None)
+                    if has_this and has_src and ((c["op"] == "==" and not truth) or (c["op"] == "!=" and truth)):
+                        tested = True
+            chk.ob("C11-D7.alias", f.key + f.sig, "`%s` is read after the object started to change (line %d)" % (p_.get("name"), w0.get("l", 0)), tested, f.loc(w0),
+                   "" if tested else "no `%s == this` test dominates the first change: a copy onto itself reads a cleared source" % p_.get("name"), "identity of source and destination tested before the first change")
+    chk.floor("C11-D7.alias", nal, 1, "methods that read another grid after changing their own")
+
+    # ------------------------------------------------------------------ D8 the documented meaning of the output range
+    chk.rule("C11-D8.range", "copyGrid documents that an end of the output range outside of the outputs selects all remaining outputs: the statements before the destination is cleared are folded "
+                             "for 1 and 4 source outputs and ends from -7 to N+9; the end that reaches the copy constructors is the given one when 0 <= end <= N and N otherwise")
+    import sympy
+    from tsg.peval import ArrayPEval
+    from tsg.sym import NotClosedForm
+    prm = {p_.get("name"): p_ for p_ in cg.params()}
+    body = cg.body.get("c", [])
+    stop = next((k_ for k_, st in enumerate(body) if st.get("k") == "CXXMemberCallExpr" and short(callee(st) or "") == "clear"), None)
+    if stop is None or "outputs_end" not in prm:
+        raise AnalysisBroken("copyGrid: no clear() statement / no outputs_end parameter")
+    nrange, bad = 0, []
+    for N in (1, 4):
+        for oe in (-7, -2, -1, 0, 1, N - 1, N, N + 1, N + 9):
+            def hook(n, ev, N=N):
+                if n.get("k") in ("CXXMemberCallExpr",) and short(callee(n) or "") == "getNumOutputs":
+                    return sympy.Integer(N)
+                if n.get("k") == "BinaryOperator" and n.get("op") in ("==", "!=") and any(z.get("k") == "CXXThisExpr" for z in walk(n)):
+                    return sympy.false if n["op"] == "==" else sympy.true
+                return None
+            pe = ArrayPEval(db)
+            pe.hook = hook
+            env = {prm["outputs_end"]["did"]: sympy.Integer(oe), prm["outputs_begin"]["did"]: sympy.Integer(0)}
+            try:
+                pe.inplace(body[:stop], env, cg, 0)
+                got = env[prm["outputs_end"]["did"]]
+            except NotClosedForm as ex:
+                got = "not folded (%s)" % ex
+            want = oe if 0 <= oe <= N else N
+            nrange += 1
+            if got != want:
+                bad.append("N=%d end=%d -> %s (documented: %d)" % (N, oe, got, want))
+    chk.ob("C11-D8.range", cg.name, "effective end of the output range", not bad, cg.where, "; ".join(bad[:3]) if bad else "%d (N, end) cases agree with the documentation" % nrange)
+    chk.floor("C11-D8.range", nrange, 18, "(outputs, end) cases")
 
     return ("Static rule discharge on the copy constructors of the five grid classes, the base class and TasmanianSparseGrid::copyGrid: member-by-member coverage (each member initialised from the "
             "same member of the source), output-strided containers split with the requested range, deep copy of owning pointers and absence of shared pointers/references, the strip-splitting "
